@@ -201,3 +201,12 @@ def tobytes(x):
 
 def real_of(x):
     return _impl.real_of(x)
+
+
+def instrument(obj, *names, **opts):
+    """sym mode: rewrite b"".join(...) (and, with strings=True / membership=True, "".join, "fmt" % x, x in C) in the named
+    functions of /repo's current source into shim calls (sx.instrument); no-op in concrete mode"""
+    if MODE == 'sym':
+        from . import instrument as _i
+        return _i.instrument(obj, *names, **opts)
+    return 0
